@@ -58,7 +58,7 @@ pub fn plan(prop: &str) -> Option<Plan> {
             thorough_runs: 40_000_000,
             chunk: 2_500,
             builds: &[("checked", 1.0), ("release", 0.5)],
-            rule: "one case = one seeded run of the wire simulation with faults ON: a producer appends 1-4 zoo messages to one long-lived writer (UPER, 70%), or encodes one protobuf message (20%), or a DER item stream through an io::Write shim (10%); a clean tracing pass (TraceBits) locates flags/indices/length determinants; 1-3 corruptions of swarm-selected kinds hit the delivery (bit flip, declared-length truncation, torn bytes, extension, byte/bit insertion and deletion, overwrite, splice, random bytes, cross-type decode; under the DER reader additionally short reads, EINTR, EOF@k, hard error@k); the consumer decodes the plan twice with different slack beyond the declared length. Oracles: O1 no panic, O2 no abort/stack overflow/hang (child exit status + watchdog), O3 allocation budget 32 MiB + 8192 x input bytes (counting global allocator), O4 no Ok with pos > len and no slack-dependent Ok, O5 accessors callable after a failed read; messages wholly before the first affected bit stay under the exact oracle. Non-trivial = at least one fault actually fired; distinct = distinct event-log hash (delivery hash, per-read outcome and position).",
+            rule: "one case = one seeded run of the wire simulation with faults ON: a producer appends 1-4 zoo messages to one long-lived writer (UPER, 70%), or encodes one protobuf message (20%), or a DER item stream through an io::Write shim (10%); a clean tracing pass (TraceBits) locates flags/indices/length determinants; 1-3 corruptions of swarm-selected kinds hit the delivery (bit flip, declared-length truncation, torn bytes, extension, byte/bit insertion and deletion, overwrite, splice, random bytes, cross-type decode; under the DER reader additionally short reads, EINTR, EOF@k, hard error@k); the consumer decodes the plan twice with different slack beyond the declared length. Oracles: O1 no panic, O2 no abort/stack overflow/hang (child exit status + watchdog), O3 allocation budget 32 MiB + 32768 x input bytes (counting global allocator), O4 no Ok with pos > len and no slack-dependent Ok, O5 accessors callable after a failed read; messages wholly before the first affected bit stay under the exact oracle. Non-trivial = at least one fault actually fired; distinct = distinct event-log hash (delivery hash, per-read outcome and position).",
             real: &["UperReader<Bits>", "Bits", "PackedRead", "UperWriter (producer)", "ProtobufReader", "ProtoRead", "ProtobufWriter (producer)", "BasicReader/BasicRead (DER)", "BasicWriter/BasicWrite (producer)", "generated zoo types"],
             stub: &["transport (in-memory wire + fault process)", "io::Read/io::Write objects (FaultyRead/FaultyWrite)", "allocator accounting wrapper around System (refuses > 1 GiB single / > 2 GiB live)"],
             assumptions: &[
